@@ -233,7 +233,10 @@ func (p *Path) gobDecodeInto(th *Thread, fr *Frame, ptr *Value, t types.Type, g 
 			if g.kind == "nil" {
 				return Iface{}
 			}
-			// allocate and decode the element
+			// gob's decAlloc: a non-nil pointer is written through, a nil pointer gets fresh storage
+			if cur, ok := load(ptr).(*Value); ok && cur != nil {
+				return p.gobDecodeInto(th, fr, cur, pt.Elem(), g)
+			}
 			cell := new(Value)
 			*cell = p.e.zero(p.tt, pt.Elem())
 			if err := p.gobDecodeInto(th, fr, cell, pt.Elem(), g); err.t != nil {
